@@ -27,7 +27,11 @@ ASSUMPTIONS = ['pandas: boolean-mask selection keeps the rows whose mask is True
                'single slices: any row order (increasing, decreasing, shuffled, a repeated stamp); stitching: series with strictly increasing '
                'duplicate-free indexes; list members are Series, DataFrames (columns 0..w-1) or integer / NaN scalars; bound lists hold dates or '
                'times of day (a scalar beside a time-of-day list raises in the code: only n = 1 is generated, error kind Other)',
-               'a Series and a one-column DataFrame with the same rows are not distinguished']
+               'a Series and a one-column DataFrame with the same rows are not distinguished',
+               'declared, not generated (review t4): stamps with nanoseconds (`index.time` drops them: 06:00:00.000000001 passes `<= 06:00`; the model counts microseconds); an empty '
+               'member spelled `pd.Series([], dtype=float)` (RangeIndex; probed: stitches like the DatetimeIndex-empty one that IS generated); a bound list that is neither non-decreasing '
+               'nor non-increasing (df_unslice raises ValueError through `_is_non_decreasing` since e2719c8, the model reverses - outside the quantifier "increasing or decreasing"). '
+               'ONE series with ONE bound is generated (stitch-*, roundtrip-* with m = 1) and proved (stitch_single_eq / _iff)']
 
 D0 = datetime.datetime(2020, 1, 1)
 H = datetime.timedelta(hours=1)
